@@ -227,8 +227,10 @@ def eval_cases(pid, module, cases, shard=250, jobs=16, scopes=None, extra_import
             if not m:
                 errors.append("shard %d: cannot parse: %s" % (k, flat[-500:]))
                 continue
-            for a, b in re.findall(r"\((\d+)(?:%N)?, (\d+)(?:%N)?\)", m.group(1)):
+            for a, b in re.findall(r"\(\s*(\d+)(?:%N)?\s*,\s*(\d+)(?:%N)?\s*\)", m.group(1)):
                 mism.append((k * shard + int(a), int(b)))
+            if m.group(1).count("(") != len(re.findall(r"\(\s*(\d+)(?:%N)?\s*,\s*(\d+)(?:%N)?\s*\)", m.group(1))):
+                errors.append("shard %d: could not parse every mismatch entry: %s" % (k, m.group(1)[:300]))
     return mism, errors
 
 
